@@ -17,7 +17,7 @@ Proof. constructor; cbn; auto. - split; discriminate. - intros [H|H]; discrimina
 
 Lemma wstep_inv ctm s a s' : WInv s -> wstep ctm s a = Some s' -> WInv s'.
 Proof.
-  intros [Mu Rl Sk Wg] H. destruct a as [ | | | |i|i|i| | | | | ]; cbn [wstep] in H.
+  intros [Mu Rl Sk Wg] H. destruct a as [ | | | |i|i|i|i| | | | | ]; cbn [wstep] in H.
   - inversion H; subst. constructor; cbn; auto. rewrite lsum_app. cbn. lia.
   - inversion H; subst. constructor; cbn; auto.
   - inversion H; subst. constructor; cbn; auto.
@@ -31,7 +31,11 @@ Proof.
     pose proof (lsum_upd in_write _ _ _ (WDone Ok) Ei) as Q. pose proof (lsum_pos in_write _ _ _ Ei) as P.
     cbn in Q, P. destruct (sendmu s); cbn in Mu; lia.
   - destruct (nth_error (writers s) i) as [[| |r]|] eqn:Ei; try discriminate.
-    destruct (sock s); [discriminate|]. inversion H; subst. constructor; cbn; auto.
+    destruct (sock s || ctm); [discriminate|]. inversion H; subst. constructor; cbn; auto.
+    pose proof (lsum_upd in_write _ _ _ (WDone Err) Ei) as Q. pose proof (lsum_pos in_write _ _ _ Ei) as P.
+    cbn in Q, P. destruct (sendmu s); cbn in Mu; lia.
+  - destruct (nth_error (writers s) i) as [[| |r]|] eqn:Ei; try discriminate.
+    destruct (sock s && stalled s && negb ctm); [|discriminate]. inversion H; subst. constructor; cbn; auto.
     pose proof (lsum_upd in_write _ _ _ (WDone Err) Ei) as Q. pose proof (lsum_pos in_write _ _ _ Ei) as P.
     cbn in Q, P. destruct (sendmu s); cbn in Mu; lia.
   - destruct (stopper s) eqn:Es; try discriminate. destruct (ctm && sendmu s); [discriminate|].
@@ -95,7 +99,23 @@ Theorem blocked_writer_released acts s i :
   nth_error (writers s) i = Some WWrite -> exists s', wstep false s (WErr i) = Some s'.
 Proof.
   intros R Hs Hi. pose proof (wrun_inv _ _ _ _ WInv_init R) as [Mu Rl Sk Wg].
-  cbn. rewrite Hi, (Sk Hs). eauto.
+  cbn. rewrite Hi, (Sk Hs). cbn. eauto.
+Qed.
+
+(* without Stop: the write deadline of a blocked write ends the Send with an error AND
+   closes the socket (e91db58), after which the handler's Receive fails and it exits *)
+Theorem write_deadline_closes acts s i :
+  wrun false winit acts = Some s -> nth_error (writers s) i = Some WWrite ->
+  sock s = true -> stalled s = true ->
+  exists s', wstep false s (WDeadline i) = Some s' /\
+             sock s' = false /\ sendmu s' = false /\
+             nth_error (writers s') i = Some (WDone Err) /\
+             (reader s' = RReading -> exists s'', wstep false s' RdErr = Some s'').
+Proof.
+  intros R Hi Hk Hst. cbn. rewrite Hi, Hk, Hst. cbn. eexists. split; [reflexivity|]. cbn.
+  repeat split.
+  - apply nth_error_upd_eq. eapply nth_error_lt; eauto.
+  - intros Er. rewrite Er. eauto.
 Qed.
 
 (* every internal step decreases a measure (both variants): only the environment can keep
@@ -109,7 +129,7 @@ Definition wmeas (s : wstate) : nat :=
 Theorem send_close_measure ctm s a s' :
   internal a = true -> wstep ctm s a = Some s' -> wmeas s' < wmeas s.
 Proof.
-  intros Ia H. unfold wmeas. destruct a as [ | | | |i|i|i| | | | | ]; try discriminate; cbn [wstep] in H.
+  intros Ia H. unfold wmeas. destruct a as [ | | | |i|i|i|i| | | | | ]; try discriminate; cbn [wstep] in H.
   - destruct (nth_error (writers s) i) as [[| |r]|] eqn:Ei; try discriminate.
     destruct (sendmu s); [discriminate|]. inversion H; subst; cbn.
     pose proof (lsum_upd wm _ _ _ WWrite Ei) as Q. cbn in Q. lia.
@@ -117,7 +137,7 @@ Proof.
     destruct (sock s && negb (stalled s)); [|discriminate]. inversion H; subst; cbn.
     pose proof (lsum_upd wm _ _ _ (WDone Ok) Ei) as Q. cbn in Q. lia.
   - destruct (nth_error (writers s) i) as [[| |r]|] eqn:Ei; try discriminate.
-    destruct (sock s); [discriminate|]. inversion H; subst; cbn.
+    destruct (sock s || ctm); [discriminate|]. inversion H; subst; cbn.
     pose proof (lsum_upd wm _ _ _ (WDone Err) Ei) as Q. cbn in Q. lia.
   - destruct (stopper s); try discriminate. destruct (ctm && sendmu s); [discriminate|]. inversion H; subst; cbn. lia.
   - destruct (stopper s); try discriminate. destruct (wgw s =? 0); [|discriminate]. inversion H; subst; cbn. lia.
@@ -137,7 +157,7 @@ Theorem close_takes_sendmutex_refuted :
             forall a, internal a = true -> wstep true s a = None.
 Proof.
   eexists. split; [vm_compute; reflexivity|]. repeat split.
-  intros a Ia. destruct a as [ | | | |i|i|i| | | | | ]; try discriminate; try reflexivity;
+  intros a Ia. destruct a as [ | | | |i|i|i|i| | | | | ]; try discriminate; try reflexivity;
     destruct i as [|[|i]]; reflexivity.
 Qed.
 
